@@ -884,6 +884,35 @@ func checkRetryHandleSame(ix *index, add addFn) {
 			add("retry-handle", fmt.Sprintf("op %d: Retry on a fresh client transmitted nothing (err=%q)", k, ix.ops[k].err), nil)
 			continue
 		}
+		// completion: once the acknowledgement that ends the exchange has arrived on
+		// the client it was given, Retry returns success
+		finalType, finalAfter := 0, -1
+		for i := ix.ops[k].inv; i < len(ix.tr) && i < ix.end(); i++ {
+			r := &ix.tr[i]
+			if r.Kind != "tx" || r.Conn != conn {
+				continue
+			}
+			switch {
+			case r.P.Type == TPublish && r.P.QoS == 1 && finalType == 0:
+				finalType, finalAfter = TPubAck, i
+			case r.P.Type == TPubRel:
+				finalType, finalAfter = TPubComp, i
+			case r.P.Type == TSubscribe && finalType == 0:
+				finalType, finalAfter = TSubAck, i
+			case r.P.Type == TUnsubscribe && finalType == 0:
+				finalType, finalAfter = TUnsubAck, i
+			}
+		}
+		if finalType != 0 && ix.complete {
+			if a := ix.rxAfter(conn, finalType, first.ID, finalAfter); a >= 0 {
+				o := ix.ops[k]
+				if o.ret < 0 || o.ret >= ix.end() {
+					add("retry-handle", fmt.Sprintf("op %d: Retry on client %d had not returned although %s(id=%d) arrived on it", k, op.Cli, typeNames[finalType], first.ID), map[string]string{"kind": "completion"})
+				} else if o.err != "" && o.ret > a {
+					add("retry-handle", fmt.Sprintf("op %d: Retry on client %d failed (%s) although %s(id=%d) had arrived on it", k, op.Cli, o.err, typeNames[finalType], first.ID), map[string]string{"kind": "completion"})
+				}
+			}
+		}
 		switch ro.Kind {
 		case "publish":
 			ok := first.Type == TPublish && tokenOf(first.Pay) == ro.Token && first.Topic == ro.Topic && first.QoS == ro.QoS && first.Retain == ro.Retain
